@@ -52,6 +52,21 @@ def findClose : List Char → Nat → Int → Option Nat
       if depth - 1 == 0 then some pos else findClose r (pos + 1) (depth - 1)
     else findClose r (pos + 1) depth
 
+/-- the same scan for a call (`extract_target_and_args`): inside a string literal (`q` = its quote character) a
+parenthesis is text; a backslash there skips the next character -/
+def findCloseQ : List Char → Nat → Int → Option Char → Option Nat
+  | [], _, _, _ => none
+  | c :: r, pos, depth, some q =>
+    if c == '\\' then (match r with | [] => none | _ :: r' => findCloseQ r' (pos + 2) depth (some q))
+    else if c == q then findCloseQ r (pos + 1) depth none
+    else findCloseQ r (pos + 1) depth (some q)
+  | c :: r, pos, depth, none =>
+    if c == '"' || c == '\'' then findCloseQ r (pos + 1) depth (some c)
+    else if c == '(' then findCloseQ r (pos + 1) (depth + 1) none
+    else if c == ')' then
+      if depth - 1 == 0 then some pos else findCloseQ r (pos + 1) (depth - 1) none
+    else findCloseQ r (pos + 1) depth none
+
 /-- `extract_passage_params(header)` = (name with tags, params) -/
 def extractPassageParams (h : List Char) : PyM (List Char × List Char) :=
   if !h.contains '(' then .ok (h, [])
@@ -70,7 +85,7 @@ def extractTargetAndArgs (t : List Char) : PyM (List Char × List Char) :=
   if !t.contains '(' then .ok (t, [])
   else do
     let ps ← pyIndexOf '(' t
-    match findClose (t.drop ps) ps 0 with
+    match findCloseQ (t.drop ps) ps 0 none with
     | none => .ok (t, [])
     | some pe => .ok (t.take ps, (t.take pe).drop (ps + 1))
 
